@@ -1,0 +1,49 @@
+//go:build verif
+
+package compare
+
+// Contracts for the compare plugin (C03, C13, C01, C09), read by /verif's gvc (comment-only file).
+
+//@ func compareMethodInputParam(typ *types.Named) (r *types.Type)
+//@ abstract: option-type
+
+//@ func (g *gen) field(thisField, thatField string, fieldType types.Type) (s string, err error)
+//@ abstract: expr classes=Call
+//@ param thisField: classes=Primary,Star,Amp type=fieldType
+//@ param thatField: sameclass=thisField type=fieldType
+//@ emits: expr
+//@ o-operands: thisField:fieldType thatField:fieldType -> int
+//@ o-pure
+//@ o-ensures: [field] r == CmpC(fieldType, thisField, thatField)
+
+//@ func (g *gen) genStatement(typ types.Type, this, that string) (err error)
+//@ abstract: stmt returns
+//@ param this: classes=Ident type=typ
+//@ param that: sameclass=this type=typ
+//@ emits: stmts
+//@ o-operands: this:typ that:typ -> int
+//@ o-pure
+//@ o-ensures: [statement] r == CmpTop(typ, this, that)
+
+//@ func (g *gen) genFunc(typs []types.Type) (err error)
+//@ param typs: len=2 identical
+//@ emits: decls
+//@ serves: compare len=2 typs=typs
+//@ o-sig: (this, that $typs[0]) (r int)
+//@ o-pure
+//@ o-ensures: [compare] r == CmpTop(typs0, this, that)
+
+//@ func (g *gen) genCurriedFunc(typ types.Type) (err error)
+//@ emits: decls
+//@ serves: compare len=1 typ=typs[0]
+//@ o-sig: (this $typ) (r func($typ) int)
+//@ o-pure
+//@ o-closure: cr
+//@ o-closure-ensures: [curried] cr == CmpTop(typ, this, that)
+
+//@ func (g *gen) Generate(typs []types.Type) (err error)
+//@ param typs: len=1,2 identical
+
+//@ func (g *gen) Add(name string, typs []types.Type) (r string, err error)
+//@ param typs: len=0,1,2,3
+//@ param name: classes=Ident
